@@ -73,6 +73,17 @@ CHECKS["C04"] = {
     "technique": "symbolic execution (CrossHair/z3) of the real evaluation and stores over a file-system model; code version per history step and payload as solver variables",
 }
 
+CHECKS["C10"] = {
+    "text": "Real _api evaluation code over memory and local (file-system model) stores on a depth-3 pipeline with a shared sub-node and a run-time-argument keep: the index of the user-function invocation that raises, the exception class (ValueError subclass, KeyboardInterrupt, BaseException subclass) and the follow-up evaluation (same pipeline repaired / another pipeline) are solver variables (enumerated through the solver), the payload a symbolic string. Checked on every path: the very same exception object propagates; no blob under the signature of the failing node or of the nodes waiting for it, only completed nodes stored; no path committed; evaluation context cleared; the next evaluation returns the plain values, executes exactly the nodes that had not completed, and commits.",
+    "design_ref": "DESIGN.md 5-C10",
+    "technique": "symbolic execution (CrossHair/z3) of the real evaluation with the failing invocation index / exception class / follow-up as solver variables",
+}
+CHECKS["C15"] = {
+    "text": "(1) _parse_stages on symbolic stage lists of length 0..5: the stage each element names, its spelling (enum member, lower / upper / mixed-case name, value) and adversarial non-stage values are solver variables; exactly the prefixes of the stage order are accepted, everything else ends in a DDSException. (2) Real evaluation over memory and local (file-system model) stores for every prefix length x spelling x {cold, committed} store: no user code / blob / path without EVAL, unchanged path table without PATH_COMMIT, signatures equal to an unrestricted analysis, and a later full evaluation returns plain values and commits.",
+    "design_ref": "DESIGN.md 5-C15",
+    "technique": "symbolic execution (CrossHair/z3) of _parse_stages on symbolic lists and of the stage gates of the real evaluation",
+}
+
 NOT_APPLICABLE = {}
 
 
